@@ -90,6 +90,9 @@ class TravBase(Check):
             qs += list(trav_queries(nv, range(nv), unis[:2], [(0, 0), (1, 1)], listmode="gen"))
             via = rng.getrandbits(64)
             res = rng.getrandbits(64)
+            for _ in range(3):      # short-lived filter objects (k % 5 == 2), different tables back to back
+                r_ = rng.getrandbits(63)
+                qs += list(trav_queries(nv, range(nv), unis[:1], [(1, 1)], via=str(r_ - r_ % 5 + 2)))
             qs += list(trav_queries(nv, range(nv), unis[:2], [(0, 1), (1, 0), (2, 1)], via=str(via)))
             qs += list(trav_queries(nv, range(nv), unis[:2], [(0, 1), (1, 0)], res=str(res)))
             qs += list(trav_queries(nv, range(nv), unis[:1], [(1, 1)], via=str(via), res=str(res), listmode="gen"))
@@ -244,6 +247,18 @@ class C06(TravBase):
 
     def oracle(self, real, line, out, pre):
         w = line.split()[0]
+        if w in TRAV and out.startswith("err ") and out != "err ValueError":
+            kind, uni, start, d, k, via, res, mode = self.parse_trav(real, line)
+            from edgegraph.structure import Vertex
+            caching = Vertex.NEIGHBOR_CACHING
+            Vertex.NEIGHBOR_CACHING = False
+            try:
+                fine = (uni is None or any(start is m for m in uni.vertices)) and reach_set(uni, start, d, k, via) is not None
+            finally:
+                Vertex.NEIGHBOR_CACHING = caching
+            if fine:
+                return "%s raised (%s) although neighbors() of every reachable in-universe vertex returns" % (line, out)
+            return None
         if w not in TRAV or not out.startswith(("ok ", "gen ")):
             return None
         kind, uni, start, d, k, via, res, mode = self.parse_trav(real, line)
